@@ -410,7 +410,13 @@ def f3_files(tier, daqmx=True, scaled=True):
     out.append(('special/short-final-contiguous-3', [G.seg([(B, _full('Int16', 3)), (A, _full('Int32', 2))], chunks=3, short=3)]))
     out.append(('special/short-final-contiguous-9', [G.seg([(B, _full('Int8', 5)), (C, _full('Int16', 2)), (A, _full('Int32', 2))], chunks=2, short=9)]))
     out.append(('special/short-final-interleaved', [G.seg([(B, _full('Int16', 2)), (A, _full('Int32', 2))], chunks=3, interleaved=True, short=5)]))
-    # byte-identical metadata blocks recurring after a segment in between changed the properties / the index (A, B, A)
+    # channels spanning the same segments with the same TOTAL length but different per-segment splits (1+3, 3+1, 2+2; 2+0+2 next to
+    # 1+2+1): per-channel lookup tables shared or memoised under a key coarser than the split itself send positional reads astray
+    out.append(('special/equal-totals', [G.seg([(A, _full('Int32', 1)), (B, _full('Int32', 3)), (C, _full('Int32', 2))]),
+                                         G.seg([(A, _full('Int32', 3)), (B, _full('Int32', 1)), (C, _full('Int32', 2))])]))
+    out.append(('special/equal-totals-3', [G.seg([(A, _full('Int16', 2)), (B, _full('Int32', 1))], chunks=1),
+                                           G.seg([(B, _full('Int32', 1))], chunks=1),
+                                           G.seg([(A, _full('Int16', 1)), (B, _full('Int32', 1))], chunks=2)]))
     pa, pb = [['gain', 'Int32', '01000000'], ['unit', 'String', '56']], [['gain', 'Int32', '02000000']]
     sa = lambda: G.seg([('/', ['NODATA'], pa), ("/'g'", ['NODATA'], pa), (A, _full('Int32', 2), pa), (B, _full('Int16', 1))])
     sb = lambda: G.seg([('/', ['NODATA'], pb), ("/'g'", ['NODATA'], pb), (A, _full('Int32', 3), pb), (B, _full('Int16', 1))])
